@@ -106,12 +106,17 @@ func sitesExprText(fset *token.FileSet, e ast.Expr) string {
 	return strings.Join(strings.Fields(b.String()), " ")
 }
 
+func newSSImporter(repo string, fset *token.FileSet) *ssImporter {
+	build.Default.CgoEnabled = false
+	return &ssImporter{repo: repo, fset: fset, std: importer.ForCompiler(fset, "source", nil),
+		pkgs: map[string]*types.Package{}, files: map[string][]*ast.File{}, infos: map[string]*types.Info{}}
+}
+
 func init() {
 	register("StringSites.v", func(repo string) (string, error) {
 		build.Default.CgoEnabled = false
 		fset := token.NewFileSet()
-		im := &ssImporter{repo: repo, fset: fset, std: importer.ForCompiler(fset, "source", nil),
-			pkgs: map[string]*types.Package{}, files: map[string][]*ast.File{}, infos: map[string]*types.Info{}}
+		im := newSSImporter(repo, fset)
 		astPkg, err := im.Import(falcoMod + "/ast")
 		if err != nil || astPkg == nil {
 			return "", fmt.Errorf("cannot type-check package ast: %v", err)
